@@ -32,12 +32,13 @@ def project(stage, model, ctx):
         ctx['c15_unexplained'] = fam
         return
     try:
-        ctx['c15'] = snapshot(model)
+        import zlib
+        ctx['c15'] = snapshot(model, dense=zlib.crc32(ctx.get('tag', '').encode()) % 3 == 0)
     except Exception as ex:  # noqa: BLE001
         ctx['c15_unexplained'] = f'{type(ex).__name__}: {ex}'
 
 
-def snapshot(model) -> dict:
+def snapshot(model, dense: bool = False) -> dict:
     import numpy as np
     from geophires_x.WellBores import InjectionWellPressureDrop, WellPressureDrop
 
@@ -68,13 +69,16 @@ def snapshot(model) -> dict:
         tavg = np.asarray(model.reserv.Tresoutput.value) - w.ProdTempDrop.value / 4.0
         base_d = float(w.prodwelldiam.value)
         lad = []
-        for f in (0.4, 0.7, 1.0, 1.5, 2.5, 4.0):
+        # one run in three sweeps the diameter in steps of 1 % (231 rungs from 0.4 to 4 times the well's own): a frictional loss that
+        # is monotone from rung to coarse rung can still rise between two neighbouring diameters where the flow regime changes
+        factors = [0.4 * 1.01 ** j for j in range(232)] if dense else (0.4, 0.7, 1.0, 1.5, 2.5, 4.0)
+        for f in factors:
             d = base_d * f
             dp, *_ = WellPressureDrop(model, tavg, float(w.prodwellflowrate.value), d, True, model.reserv.depth.value)  # True: return the frictional drop
             lad.append({'d': rat(d), 'dp': rat(float(np.max(dp)))})
         t['ladder'] = lad
         lad2 = []
-        for f in (0.4, 0.7, 1.0, 1.5, 2.5, 4.0):
+        for f in factors:
             d = float(w.injwelldiam.value) * f
             dp, *_ = InjectionWellPressureDrop(model, w.Tinj.value, float(w.prodwellflowrate.value), d, True, model.reserv.depth.value,
                                                w.nprod.value, max(1, w.ninj.value), model.reserv.waterloss.value)
